@@ -34,23 +34,28 @@ type Oblig struct {
 }
 
 type VC struct {
-	u         *Universe
-	cs        *Contracts
-	Func      string
-	decls     []string
-	declSet   map[string]bool
-	assum     []string
-	obligs    []*Oblig
-	roots     map[string]string // memory name -> root const
-	sorts     map[string]string // memory name -> sort
-	nfresh    int
-	errs      []string // "outside subset" reasons: every obligation of the function is then undischarged
-	assumed   []string // assumptions about externals used while encoding (for evidence)
-	names     map[string]int
-	rootAssum []string
-	seeds     map[string]string
-	instances []*defInstance
-	instSeen  map[string]bool
+	u           *Universe
+	cs          *Contracts
+	Func        string
+	decls       []string
+	declSet     map[string]bool
+	assum       []string
+	obligs      []*Oblig
+	roots       map[string]string // memory name -> root const
+	sorts       map[string]string // memory name -> sort
+	nfresh      int
+	errs        []string // "outside subset" reasons: every obligation of the function is then undischarged
+	assumed     []string // assumptions about externals used while encoding (for evidence)
+	names       map[string]int
+	rootAssum   []string
+	seeds       map[string]string
+	classAxioms []string
+	classInst   map[string]bool
+	strFacts    []string             // ground facts about substrings: only given to obligations whose goal is about strings
+	subs        map[string][]subTerm // root string -> substring terms built over it
+	subDef      map[string]subTerm   // SSA constant defined as a substring -> (root, lo, len)
+	instances   []*defInstance
+	instSeen    map[string]bool
 }
 
 func newVC(u *Universe, cs *Contracts, fn string) *VC {
@@ -247,4 +252,52 @@ func (vc *VC) unfoldInstances() []string {
 		out = append(out, eq(lhs, body.T))
 	}
 	return out
+}
+
+type subTerm struct {
+	root, lo, n, term string
+}
+
+// substr builds the term base[lo : lo+n] and records, as ground facts, how it relates to the other substring terms
+// over the same root string (substring-of-substring arithmetic):
+//
+//	root[a+c : a+c+m] == (root[a : a+n])[c : c+m]   whenever the inner range lies inside the outer one.
+//
+// These are facts about strings (not about the code); the string solvers derive them only slowly, and with them the
+// remaining reasoning about the scanner's buffer is congruence plus linear arithmetic.
+func (vc *VC) substr(base, lo, n string) string {
+	term := "(str.substr " + base + " " + lo + " " + n + ")"
+	if strings.Contains(term, "$") {
+		return term
+	}
+	if vc.subs == nil {
+		vc.subs = map[string][]subTerm{}
+		vc.subDef = map[string]subTerm{}
+	}
+	root, rlo := base, lo
+	if d, ok := vc.subDef[base]; ok {
+		// base is itself root[d.lo : d.lo+d.n]
+		root = d.root
+		rlo = "(+ " + d.lo + " " + lo + ")"
+		direct := "(str.substr " + root + " " + rlo + " " + n + ")"
+		vc.strFacts = append(vc.strFacts, implies(and("(<= 0 "+lo+")", "(<= 0 "+n+")", "(<= (+ "+lo+" "+n+") "+d.n+")", "(<= 0 "+d.lo+")", "(<= (+ "+d.lo+" "+d.n+") (str.len "+root+"))"), eq(term, direct)))
+	}
+	me := subTerm{root: root, lo: rlo, n: n, term: term}
+	for _, o := range vc.subs[root] {
+		if o.term == term {
+			return term
+		}
+	}
+	for _, o := range vc.subs[root] {
+		// me inside o
+		vc.strFacts = append(vc.strFacts, implies(and("(<= 0 "+o.lo+")", "(<= "+o.lo+" "+me.lo+")", "(<= 0 "+me.n+")", "(<= (+ "+me.lo+" "+me.n+") (+ "+o.lo+" "+o.n+"))", "(<= (+ "+o.lo+" "+o.n+") (str.len "+root+"))"),
+			eq(me.term, "(str.substr "+o.term+" (- "+me.lo+" "+o.lo+") "+me.n+")")))
+		// o inside me
+		vc.strFacts = append(vc.strFacts, implies(and("(<= 0 "+me.lo+")", "(<= "+me.lo+" "+o.lo+")", "(<= 0 "+o.n+")", "(<= (+ "+o.lo+" "+o.n+") (+ "+me.lo+" "+me.n+"))", "(<= (+ "+me.lo+" "+me.n+") (str.len "+root+"))"),
+			eq(o.term, "(str.substr "+me.term+" (- "+o.lo+" "+me.lo+") "+o.n+")")))
+	}
+	if len(vc.subs[root]) < 12 {
+		vc.subs[root] = append(vc.subs[root], me)
+	}
+	return term
 }
